@@ -60,6 +60,18 @@ Theorem C03_close_announced_partial : forall e q p,
 Proof. exact close_announced. Qed.
 Print Assumptions C03_close_announced_partial.
 
+(* why [g_out_err = false] is needed above (not a defect: the handler broke its own declared
+   Content-Length after the header block had left; closing is the only safe reaction) *)
+Theorem C03_abort_close_not_announced_refuted :
+  exists e q p, is_v11 q = true /\ g_hdr_err (run e q p) = false /\ g_early_fin (run e q p) = false /\
+                g_out_err (run e q p) = true /\ o_head (run e q p) <> None /\
+                c_closed (run e q p) = true /\ sent_close (run e q p) = false.
+Proof.
+  exists env0, q_get11, [SetH (b "Content-Length") (b "5"); Write (b "x"); Flush].
+  destruct abort_unannounced as (A & B & C & D & E & F). repeat split; auto.
+Qed.
+Print Assumptions C03_abort_close_not_announced_refuted.
+
 (* FULL STATEMENT: forall e q p, no_handler_connection p = true ->
      sent_keep_alive (run e q p) = true -> c_closed (run e q p) = false.
    Same exclusions. *)
